@@ -1,6 +1,6 @@
 SPECIFICATION MCSpec
 CONSTANTS
-  R = 140
+  R = 100
   K = 7
   Mode = "small"
   Mutant = "none"
